@@ -4,6 +4,7 @@ import (
 	"bytes"
 	"encoding/json"
 	"fmt"
+	"os"
 
 	"github.com/meshplus/bitxhub/verif/engines/chainsim"
 	"github.com/meshplus/bitxhub/verif/sim"
@@ -31,6 +32,9 @@ func (Engine) Name() string { return "ledgersim" }
 func (Engine) Generate(prop string, r *sim.Rand, tier string) *sim.Plan {
 	switch prop {
 	case "C13":
+		if r.Chance(0.02) || os.Getenv("VERIF_C13_NODE") != "" {
+			return chainsim.Generate(prop, r, tier) // node level: records of a user contract through the executor and the WASM host functions
+		}
 		return genC13(r, tier)
 	case "C10":
 		if r.Chance(0.04) {
@@ -60,6 +64,9 @@ func (Engine) Execute(prop string, p *sim.Plan, keep bool) (res *sim.Result) {
 	}()
 	switch prop {
 	case "C13":
+		if nodeLevel(p.Config) {
+			return chainsim.Execute(prop, p, keep)
+		}
 		return execC13(p, keep)
 	case "C10":
 		if nodeLevel(p.Config) {
@@ -92,7 +99,18 @@ func (Engine) SimplifyStep(prop string, s json.RawMessage) []json.RawMessage {
 		}
 		return simplifyHStep(s)
 	}
+	if prop == "C13" && bytes.Contains(s, []byte(`"pair"`)) == false && nodeLevelC13Step(s) {
+		return chainsim.SimplifyStep(s)
+	}
 	return simplifyLStep(s)
+}
+
+func nodeLevelC13Step(s json.RawMessage) bool {
+	var st struct {
+		Op string `json:"op"`
+	}
+	_ = json.Unmarshal(s, &st)
+	return st.Op == "kv" || st.Op == "cut" || st.Op == "transfer"
 }
 
 func (Engine) SimplifyConfig(prop string, c json.RawMessage) []json.RawMessage {
@@ -104,7 +122,7 @@ func (Engine) SimplifyConfig(prop string, c json.RawMessage) []json.RawMessage {
 		return simplifyC10Config(c)
 	case "C11":
 		return simplifyC11Config(c)
-	case "C09", "C12":
+	case "C09", "C12", "C13":
 		if nodeLevel(c) {
 			return chainsim.SimplifyConfig(c)
 		}
